@@ -27,6 +27,92 @@ def run(ctx):
     names = [n for n in ops if n != "hmax"]
     for i, rng in ctx.cases("datasets", ctx.n(220, 8000)):
         one(ctx, rng, xr, ops, names)
+    for i, rng in ctx.cases("fits", ctx.n(64, 1500)):
+        fits(ctx, rng, xr)
+
+
+def _fit_spectrum(rng, f, th, cls):
+    """1-D shapes spread over direction: broad (fit converges), very narrow swell (curve_fit often gives up),
+    two-peaked, noisy, single-bin and empty spectra."""
+    fp = float(rng.uniform(f[2], f[-3]))
+    if cls == "broad":
+        s1 = np.exp(-0.5 * ((f - fp) / (0.15 * fp)) ** 2) * (f / fp) ** -2
+    elif cls == "narrow":
+        s1 = np.exp(-0.5 * ((f - fp) / float(rng.uniform(0.001, 0.006))) ** 2)
+    elif cls == "twopeak":
+        s1 = np.exp(-0.5 * ((f - fp) / 0.01) ** 2) + 0.9 * np.exp(-0.5 * ((f - 1.7 * fp) / 0.03) ** 2)
+    elif cls == "noise":
+        s1 = rng.random(len(f))
+    elif cls == "single_bin":
+        s1 = np.zeros(len(f))
+        s1[int(rng.integers(1, len(f) - 1))] = 1.0
+    else:
+        s1 = np.zeros(len(f))
+    D = np.cos(np.radians(th - float(rng.uniform(0, 360))) / 2) ** 2 + 0.01
+    return float(10 ** rng.uniform(-1.5, 1)) * s1[:, None] * D[None, :]
+
+
+def fits(ctx, rng, xr):
+    """fit_jonswap / fit_gaussian loop over the positions: the fit at a position must be the fit of that single
+    spectrum, whatever was fitted before it (order reversed, neighbour replaced, single call)."""
+    rec = ctx.rec
+    nf = int(rng.choice([12, 20, 31]))
+    f = np.linspace(0.04, 0.04 + 0.012 * nf, nf) if rng.random() < 0.5 else 0.04 * 1.1 ** np.arange(nf)
+    th = np.arange(0.0, 360.0, 45.0)
+    n = int(rng.integers(3, 7))
+    classes = [str(rng.choice(["broad", "narrow", "narrow", "twopeak", "noise", "single_bin", "zeros"])) for _ in range(n)]
+    A = np.array([_fit_spectrum(rng, f, th, c) for c in classes])
+    lead = str(rng.choice(["time", "site"]))
+    x = xr.DataArray(A, dims=[lead, "freq", "dir"], coords={lead: np.arange(n), "freq": f, "dir": th}, name="efth")
+    which = str(rng.choice(["jonswap", "gaussian"]))
+    kw = {"gamma0": float(rng.choice([1.5, 3.3]))} if which == "jonswap" else {"gw0": float(rng.choice([1.5, 0.02]))}
+    key = "fit_%s|lead=%s|%s" % (which, lead, "+".join(sorted(set(classes))))
+
+    def call(y):
+        fn = y.spec.fit_jonswap if which == "jonswap" else y.spec.fit_gaussian
+        r = fn(spectra=False, params=True, **kw).compute()
+        return np.array([np.asarray(r[k].values, dtype="float64") for k in sorted(r.data_vars)])
+
+    import warnings
+    with warnings.catch_warnings():
+        warnings.simplefilter("ignore")
+        try:
+            R = call(x)
+        except Exception as e:
+            rec.skip("fits", "batched fit raised %s" % type(e).__name__)
+            return
+
+        def same(a, b):
+            return bool(np.all((a == b) | (np.isnan(a) & np.isnan(b))))
+
+        rec.note("fit_nan_positions", int(np.isnan(R).any(axis=0).sum()))
+        rec.note("fit_converged_positions", int((~np.isnan(R).any(axis=0)).sum()))
+        # (1) each position on its own (the loop state then holds whatever the batched call left behind)
+        for k in rng.permutation(n):
+            r1 = call(x.isel({lead: [int(k)]}))
+            if same(r1[:, 0], R[:, int(k)]):
+                rec.ok("fit_single_vs_batched", key)
+            else:
+                rec.bad("fit_single_vs_batched", key, {"position": int(k), "classes": classes, "batched": R[:, int(k)], "single": r1[:, 0], "freq": f,
+                                                       "oned": A[int(k)].sum(-1)}, "crosstalk-fit-depends-on-other-spectra")
+                return
+        # (2) order reversed: results reversed
+        Rr = call(x.isel({lead: slice(None, None, -1)}))
+        if same(Rr[:, ::-1], R):
+            rec.ok("fit_order", key)
+        else:
+            rec.bad("fit_order", key, {"classes": classes, "forward": R, "reversed": Rr[:, ::-1]}, "crosstalk-fit-depends-on-other-spectra")
+            return
+        # (3) one spectrum replaced: all others bit-identical
+        p = int(rng.integers(n))
+        A2 = A.copy()
+        A2[p] = _fit_spectrum(rng, f, th, str(rng.choice(["broad", "narrow", "twopeak"])))
+        R2 = call(x.copy(data=A2))
+        keep = np.arange(n) != p
+        if same(R2[:, keep], R[:, keep]):
+            rec.ok("fit_perturbation", key)
+        else:
+            rec.bad("fit_perturbation", key, {"classes": classes, "replaced": p, "before": R, "after": R2}, "crosstalk-fit-depends-on-other-spectra")
 
 
 def one(ctx, rng, xr, ops, names):
